@@ -87,6 +87,14 @@ def directed(rnd, tier):
         for ct in ("y", "n", "i", "x", "s", "g", "ay", "ax", "as", "(y)", "(yx)", "a{sv}", "v", "a(yv)", "av", "aai"):
             for off in range(8):
                 add("y" * off + "v" + "y", [9] * off + [Variant(ct, sample_value(ct, off)), 0xEE], le)
+        # length bytes with the top bit set: variant signatures and signature values of 120..255 bytes (one-byte length words
+        # read as signed char would go negative at 128)
+        for k in (118, 125, 126, 127, 128, 129, 200, 253):
+            ssig = "(" + "y" * k + ")"
+            add("yvy", [7, Variant(ssig, tuple((i * 7 + 1) % 256 for i in range(k))), 0xEE], le)
+            add("vv", [Variant(ssig, tuple(range(k))), Variant("s", "after")], le)
+            add("gy", ["y" * (k + 2), 5], le)
+            add("av", [[Variant(ssig, tuple(range(k))), Variant("y", 3)]], le)
         for depth in (1, 2, 3, 10, 31, 32, 33, 62, 63):
             v = Variant("ay", [1, 2, 3])
             for _ in range(depth):
